@@ -159,6 +159,16 @@ Theorem C08_week_days : forall y o d w, repr y o d -> 0 <= w <= 6 ->
 Proof. exact week_days_spec. Qed.
 Print Assumptions C08_week_days.
 
+(* first_day / last_day / days: the same dates, a trap exactly when the checked form has nothing *)
+Theorem C08_week_panicking : forall y o d w, repr y o d -> 0 <= w <= 6 ->
+  let f := week_start (dn_of_yo y o) w in
+  week_first_day (d_week d w) = (if dn_in_range f then Val (date_of_dn f) else Panic) /\
+  week_last_day (d_week d w) = (if dn_in_range (f + 6) then Val (date_of_dn (f + 6)) else Panic) /\
+  week_days (d_week d w) =
+    (if dn_in_range f && dn_in_range (f + 6) then Val (date_of_dn f, date_of_dn (f + 6)) else Panic).
+Proof. exact week_panicking_spec. Qed.
+Print Assumptions C08_week_panicking.
+
 (* ---- n-th given weekday of a month: all (year : i32, month : u32, weekday, n : u8) *)
 Theorem C08_nth_weekday : forall y m w n, in_i32 y = true -> in_u32 m = true -> 0 <= w <= 6 -> in_u8 n = true ->
   from_weekday_of_month_opt y m w n = Val (
